@@ -19,21 +19,33 @@
                                choices (`B` explicit: `settle_bound`);
     * `rebalancing_reaches_settled`, `settled_persists` — hence among any `B + 1` sweeps one starts
                                in a state where no table is asked anything, and that stays so.
+
+  Domain: `Reachable s` (Model/RegulatorEnv.lean) = every state obtained from a fresh regulator
+  with ANY setting with `1 ≤ max` (any `min`, no relation to `max`; with `max = 0` the Go code
+  divides by zero in `float64`) by ANY finite history of valid operations in which the status
+  only moves forward (`RSys.ok`; these conditions never block a history, Proofs/RegTotal.lean).
+  No theorem here needs `2 ≤ min ≤ max`.  The forward-only restriction is needed by the
+  convergence proof (its measure uses `count + required ≤ max` and the invariant `Q`, both false
+  once `SetStatus(Pending)` is applied to a running competition, `C19.capacity_fails_after_
+  return_to_pending`); the second sentence is proved without it (`break_returns_all_any`).
 -/
 import Pokerface.Proofs.RegFrame
+import Pokerface.Proofs.RegAnyProps
 
 namespace Pokerface.C20
 open Pokerface Reg RSys
 
-/-- **break_returns_all**.  Let a valid sync of an existing table `t` (members `≈ elim ++ stay`)
+/-- **break_returns_all** on the WIDEST domain (`ReachableAny`, C09: any setting, status changes in
+    any direction — if the competition is pending again, "queued" is all that happens to the
+    released players until the restart).  Let a valid sync of an existing table `t` (members `≈ elim ++ stay`)
     from a reachable state break the table.  Then
     * the regulator tells the table to release exactly its whole remaining membership
       (`|stay|`) and gives it nobody; the released players are all of `stay`, nobody is kept;
     * afterwards table `t` exists neither in reality nor on the regulator's sheet;
     * every released player is, after the environment's `ReleasePlayers`, in the waiting queue or
       was handed to a table by a callback of this very step — and that table is another table. -/
-theorem break_returns_all {s : RSys} (h : Reachable s) (t : Nat) (elim stay rel keep ch ms : List Nat)
-    (hm : s.env.membersOf t = some ms) (hok : s.ok (.sync t elim stay rel keep ch))
+theorem break_returns_all_any {s : RSys} (h : ReachableAny s) (t : Nat) (elim stay rel keep ch ms : List Nat)
+    (hm : s.env.membersOf t = some ms) (hok : s.okAny (.sync t elim stay rel keep ch))
     (hb : s.broken t elim = true) :
     ((s.syncAnswer t elim).2.2.1 = stay.length ∧ (s.syncAnswer t elim).2.2.2 = [] ∧
       rel.Perm stay ∧ keep = []) ∧
@@ -44,10 +56,10 @@ theorem break_returns_all {s : RSys} (h : Reachable s) (t : Nat) (elim stay rel 
         p ∈ handed (s.step (.sync t elim stay rel keep ch)).r.calls) ∧
       (p ∈ (s.step (.sync t elim stay rel keep ch)).r.queue ∨
         ∃ e ∈ (s.step (.sync t elim stay rel keep ch)).env.members, e.1 ≠ t ∧ p ∈ e.2)) := by
-  have hS := SInv.of_reachable h
+  have hS := SInv0.of_reachable h
   obtain ⟨hS', hF⟩ := hS.step_full _ hok
   have hok' := hok
-  simp only [ok, hm] at hok'
+  simp only [okAny, ok, hm] at hok'
   rw [show s.syncAnswer t elim = ((s.syncAnswer t elim).1, (s.syncAnswer t elim).2.1,
     (s.syncAnswer t elim).2.2.1, (s.syncAnswer t elim).2.2.2) from rfl] at hok'
   simp only [] at hok'
@@ -97,6 +109,27 @@ theorem break_returns_all {s : RSys} (h : Reachable s) (t : Nat) (elim stay rel 
     obtain ⟨e, he, hpe⟩ := mem_seatedOf.1 this
     exact ⟨e, he, fun het => hgone (List.mem_map.2 ⟨e, he, het⟩), hpe⟩
   · exact ⟨Or.inl h1, Or.inl h1⟩
+
+/-- **break_returns_all**.  Let a valid sync of an existing table `t` (members `≈ elim ++ stay`)
+    from a reachable state break the table.  Then
+    * the regulator tells the table to release exactly its whole remaining membership
+      (`|stay|`) and gives it nobody; the released players are all of `stay`, nobody is kept;
+    * afterwards table `t` exists neither in reality nor on the regulator's sheet;
+    * every released player is, after the environment's `ReleasePlayers`, in the waiting queue or
+      was handed to a table by a callback of this very step — and that table is another table. -/
+theorem break_returns_all {s : RSys} (h : Reachable s) (t : Nat) (elim stay rel keep ch ms : List Nat)
+    (hm : s.env.membersOf t = some ms) (hok : s.ok (.sync t elim stay rel keep ch))
+    (hb : s.broken t elim = true) :
+    ((s.syncAnswer t elim).2.2.1 = stay.length ∧ (s.syncAnswer t elim).2.2.2 = [] ∧
+      rel.Perm stay ∧ keep = []) ∧
+    (t ∉ (s.step (.sync t elim stay rel keep ch)).env.members.map (·.1) ∧
+      (s.step (.sync t elim stay rel keep ch)).r.findTable t = none) ∧
+    (∀ p ∈ rel,
+      (p ∈ (s.step (.sync t elim stay rel keep ch)).r.queue ∨
+        p ∈ handed (s.step (.sync t elim stay rel keep ch)).r.calls) ∧
+      (p ∈ (s.step (.sync t elim stay rel keep ch)).r.queue ∨
+        ∃ e ∈ (s.step (.sync t elim stay rel keep ch)).env.members, e.1 ≠ t ∧ p ∈ e.2)) :=
+  break_returns_all_any h.any t elim stay rel keep ch ms hm (okAny_of_ok hok) hb
 
 /-- **stable_is_fixed** (regulator level, ANY state): if the regulator's total is the sum of its
     table counts (nobody queued, counts agree), it has exactly as many tables as it needs, and
@@ -357,7 +390,7 @@ def start12 : List EOp := [.add [1,2,3,4,5,6,7,8,9,10,11,12] [], .status .normal
 def breakOp : EOp := .sync 1 [1,2,3,4] [5,6] [5,6] [] [2]
 
 example : Reachable ((RSys.init 9 6).run start12) :=
-  (Reachable.init 9 6 (by decide) (by decide)).run start12 (by decide)
+  (Reachable.init 9 6 (by decide)).run start12 (by decide)
 example : ((RSys.init 9 6).run start12).ok breakOp := by decide
 example : ((RSys.init 9 6).run start12).broken 1 [1,2,3,4] = true := by decide
 example : (((RSys.init 9 6).run start12).step breakOp).env.members = [(2, [7,8,9,10,11,12,5,6])] := by decide
@@ -376,7 +409,7 @@ example : ((RSys.init 9 6).run start12).r.queue = [] ∧
 def start27 : List EOp :=
   [.add ((List.range 27).map (· + 1)) [], .status .normal [], .sync 1 [1,2,3,4,5,6] [7,8,9] [] [7,8,9] []]
 example : Reachable ((RSys.init 9 6).run start27) :=
-  (Reachable.init 9 6 (by decide) (by decide)).run start27 (by decide)
+  (Reachable.init 9 6 (by decide)).run start27 (by decide)
 example : (((RSys.init 9 6).run start27).r.syncState 2 0).2.2.1 = 2 := by decide
 /-- an arrival from the queue (second half): player 13 waits, table 1 loses two and receives him -/
 example : (((RSys.init 6 5).run [.add [1,2,3,4,5,6,7,8,9,10,11,12,13] [], .status .normal []]).r.syncState 1 2).2.2.2
